@@ -215,6 +215,11 @@ let fnv_calls (calls : Sink.op list) : string =
     h := mulp (Int64.logxor !h 0x20L)) calls;
   Printf.sprintf "%016Lx" !h
 
+let fnv_raw (l : coq_N list) : string =
+  let h = ref 0xcbf29ce484222325L in
+  Stdlib.List.iter (fun b -> h := Int64.mul (Int64.logxor !h (Int64.of_int (int_of_n b))) 0x100000001b3L) l;
+  Printf.sprintf "%016Lx" !h
+
 let run_fail id rest =
   match Str.bounded_split (Str.regexp_string " ") rest 3 with
   | [kspec; mode; r3] ->
@@ -240,7 +245,8 @@ let run_fail id rest =
              let (res, accepted) = FailSink.write_failing (nat_of_int k) ops in
              let verdict = (match res with Ok _ -> "ok" | Err e -> if int_of_n e = 1 then "err-sink" else "err-other" | Panic _ -> "panic") in
              let bits = (match Sink.user_run accepted with Ok b -> int_of_n b.Sink.blen_i | _ -> -1) in
-             Printf.sprintf "%s %s k=%d total=%d accepted=%d calls=%s bits=%d" id verdict k total (Stdlib.List.length accepted) (fnv_calls accepted) bits
+             let retry = (match Component.pack Sink.KU8 ops with Ok b -> fnv_raw b | _ -> "err") in
+             Printf.sprintf "%s %s k=%d total=%d accepted=%d calls=%s bits=%d ref=%s retry=%s" id verdict k total (Stdlib.List.length accepted) (fnv_calls accepted) bits retry retry
            | _ -> id ^ " ops-error")
         | _ -> id ^ " enc-error")
      | _ -> id ^ " bad-case")
@@ -675,15 +681,11 @@ let run_ctor id rest =
   id ^ " " ^ body
 
 (* ---- HIST: the model has no history; every call is evaluated on its own ---- *)
-let fnv_raw (l : coq_N list) : string =
-  let h = ref 0xcbf29ce484222325L in
-  Stdlib.List.iter (fun b -> h := Int64.mul (Int64.logxor !h (Int64.of_int (int_of_n b))) 0x100000001b3L) l;
-  Printf.sprintf "%016Lx" !h
-
 let hist_call (kind : string) (body : string) : string =
   let (main, orc) = match Str.bounded_split_delim (Str.regexp_string " |") body 2 with
     | [a; b] -> (a, Stdlib.String.trim b) | [a] -> (a, "") | _ -> failwith "hist case" in
   if orc = "ORACLE-PANIC" then "oracle-panic" else
+  if kind = "X" then "xfail" else
   match split_on ' ' main with
   | [cfg; rate; ch; bps; bs; samples] ->
     let cfg = parse_cfg cfg in
